@@ -284,6 +284,7 @@ class Check:
         self.extra = {}
         self.rule = ""
         self.preds = {}           # name -> predicate(case) used by predicate-class known findings
+        self.all_cases = []       # every evaluated case (for the audit of predicate classes: class size vs failing members)
         self.exhaustive = False
         self.workdir = os.path.join(BUILD, "run", prop)
         shutil.rmtree(self.workdir, ignore_errors=True)
@@ -357,6 +358,25 @@ class Check:
             trusted_base=self.trusted,
             known_findings_hit={k: len(v) for k, v in hits.items()},
         )
+        # audit of the predicate classes: how many evaluated cases fall in each class and how many of them fail today
+        audit = {}
+        for e in known:
+            if "pred" in e and e["pred"] in self.preds and self.all_cases:
+                n = 0
+                for c in self.all_cases:
+                    try:
+                        n += 1 if self.preds[e["pred"]](c) else 0
+                    except Exception:
+                        pass
+                nf = 0
+                for m in self.mismatches:
+                    try:
+                        nf += 1 if (m["kind"] in e.get("kinds", ()) and self.preds[e["pred"]](m["case"])) else 0
+                    except Exception:
+                        pass
+                audit[e["pred"]] = dict(cases_in_class=n, failing=nf)
+        if audit:
+            cov["known_finding_classes"] = audit
         cov.update(self.extra)
         cov.update(extra_cov or {})
         ev = dict(property_id=self.prop, tier=self.tier, seed=self.seed, level=self.level, coverage=cov,
